@@ -24,7 +24,7 @@ import time
 REPO = "/repo"
 VERIF = os.path.dirname(os.path.dirname(os.path.abspath(__file__)))
 TMP = os.environ.get("MUTCAMP_TMP", "/tmp/mutcamp")
-ORDER = ["C16", "C17", "C14", "C08", "C11", "C12", "C10", "C18", "C15", "C19", "C13", "C03", "C07", "C01", "C06", "C02", "C05",
+ORDER = ["C16", "C17", "C14", "C19", "C08", "C11", "C15", "C18", "C13", "C10", "C12", "C03", "C07", "C01", "C06", "C02", "C05",
          "C20", "C04", "C09"]
 FILES = ["src/index.rs", "src/content/write.rs", "src/content/read.rs", "src/content/rm.rs", "src/content/path.rs",
          "src/content/linkto.rs", "src/put.rs", "src/get.rs", "src/rm.rs", "src/ls.rs", "src/linkto.rs", "src/errors.rs"]
@@ -110,6 +110,11 @@ def sh(cmd, env=None, cwd=None, timeout=3600):
 
 def run(out_path, worker, nworkers, stride, only):
     ms = [m for m in mutants() if (not only or only in m["file"])]
+    if os.environ.get("MUTCAMP_IDX"):
+        # second pass: only the listed mutants (e.g. the ones not yet run and the survivors of an earlier pass)
+        with open(os.environ["MUTCAMP_IDX"]) as fh:
+            want = set(json.load(fh))
+        ms = [m for m in ms if m["idx"] in want]
     mine = [m for j, m in enumerate(ms[::stride]) if j % nworkers == worker]
     done = set()
     if os.path.exists(out_path):
